@@ -83,6 +83,10 @@ NewClauses(p, ct, al, p2, ct2, al2, s) ==
     \cup (IF s.op = "copy" /\ \E k \in DOMAIN new.bins : Shares(new.bins[k]) THEN {"copy-shares-bins"} ELSE {})
     \cup (IF s.op = "copy" /\ (new.masked # src.masked \/ new.nonneg # src.nonneg) THEN {"content"} ELSE {})
 
+(* a step whose source is not a well-formed dataset (an earlier, already reported,
+   step damaged it) is outside the quantifier and is not judged *)
+SoundDs(d) == Len(d.bins) \in {0, Len(d.shape)} /\ Len(d.kinds) = Len(d.bins) /\ d.eshape = d.shape
+
 Clauses(p, ct, al, p2, ct2, al2, s) ==
    LET n == Len(p)
        changed == {b \in DOMAIN ct : ct2[b] # ct[b]}
@@ -92,7 +96,7 @@ Clauses(p, ct, al, p2, ct2, al2, s) ==
     \cup (IF s.op = "rebind" /\ Len(p2) # n THEN {"operand-modified"} ELSE {})
     \cup (IF s.op = "mutate" /\ \E x \in changed : ~Overlap(al, s.buf, x) THEN {"mutation-leak"} ELSE {})
     \cup (IF isNew /\ Len(p2) # n + 1 THEN {"no-result"} ELSE {})
-    \cup (IF isNew /\ Len(p2) = n + 1 THEN NewClauses(p, ct, al, p2, ct2, al2, s) ELSE {})
+    \cup (IF isNew /\ Len(p2) = n + 1 /\ SoundDs(p[s.i]) THEN NewClauses(p, ct, al, p2, ct2, al2, s) ELSE {})
 
 (* "a copy shares no data with its original", seen from the user's side: cps is
    the set of pairs <<source, copy>> made so far; writing into an array of a
@@ -118,7 +122,6 @@ CopyClauses(p, p2, ct, ct2, cps, s) ==
 -----------------------------------------------------------------------------
 (* the pool as a state machine *)
 Ext(f, g) == g @@ f                           \* g wins on common arguments
-Fn(ks, vs) == [k \in Range(ks) |-> vs[CHOOSE x \in DOMAIN ks : ks[x] = k]]    \* ks injective
 
 Kinds == {"edges", "centres"}
 InitDs(shape, withBins, kind, b0, t0) ==
